@@ -81,3 +81,18 @@ Section TwoOrders.
       rewrite (inner_call_ext true false _ _ None _ Hv), (inner_call_ext (v_bound fixed) true _ _ None _ Hv). reflexivity.
   Qed.
 End TwoOrders.
+
+(* make-instance with the same init arguments answers the same in the two final states *)
+Theorem order_irrelevant_make : forall h h', wf h = true -> wf h' = true -> Permutation h h' -> writes_once h ->
+  forall f args, defined (decls h) f = true -> make_instance (final h) f args = make_instance (final h') f args.
+Proof.
+  intros h h' H H' P N f args Hd. assert (E := spec_order_free h h' H H' P N). destruct E as (E1 & E2 & E3).
+  assert (Hd' : defined (decls h') f = true) by (rewrite <- (oi_defined h h' H H' P N); exact Hd).
+  rewrite (make_instance_code_rule h f args H Hd), (make_instance_code_rule h' f args H' Hd'). unfold s_make_code.
+  assert (Ei : s_initable (decls h) f = s_initable (decls h') f).
+  { unfold s_initable, decls. rewrite (E1 f). destruct (decl_of (ss_decls (spec h')) f); [| reflexivity]. apply s_acc_ext; assumption. }
+  assert (Er : s_required (decls h) f = s_required (decls h') f) by (unfold s_required, decls; rewrite (E1 f); reflexivity).
+  rewrite Ei, Er. apply init_gen_ext.
+  - intros x. rewrite (oi_var h h' H H' P N f x). reflexivity.
+  - intros x. rewrite (oi_key h h' H H' P N f x). reflexivity.
+Qed.
